@@ -398,9 +398,13 @@ pub fn run_plan(plan: &Plan) -> Outcome {
                 "refused" => std::io::ErrorKind::ConnectionRefused,
                 _ => std::io::ErrorKind::Other, // EMFILE-like
             };
+            let shortage: Option<u64> = ae.kind.strip_prefix("shortage:").and_then(|d| d.parse().ok());
             tokio::spawn(async move {
                 tokio::time::sleep_until(start + ms(at)).await;
-                net.inject_accept_err(sim_addr(), kind);
+                match shortage {
+                    Some(dur) => net.inject_accept_shortage(sim_addr(), dur),
+                    None => net.inject_accept_err(sim_addr(), kind),
+                }
             });
         }
         // clients
